@@ -124,7 +124,7 @@ class Store:
         p = self.key(I, a[0])
         self.step(I, "exists")
         self.maybe_fault(I, "exists", p)
-        self.log("exists", path=p)
+        self.log("exists", path=p, ex=z3.Select(self.ex, p), tag=z3.Select(self.tag, p))
         return pyops.mk_bool(z3.Select(self.ex, p))
 
     def a_read_file(self, I, obj, a, k):
@@ -132,9 +132,9 @@ class Store:
         self.step(I, "read_file")
         self.maybe_fault(I, "read_file", p)
         if not I.ctx.decide(z3.Select(self.ex, p), "read-exists"):
-            self.log("read_file", path=p, ok=False)
+            self.log("read_file", path=p, ok=False, ex=z3.BoolVal(False), tag=z3.Select(self.tag, p))
             raise PyRaise(SExc("FileNotFoundError", origin="read_file: not found", fields={"fault": False}))
-        self.log("read_file", path=p, ok=True, content=z3.Select(self.ct, p))
+        self.log("read_file", path=p, ok=True, content=z3.Select(self.ct, p), ex=z3.BoolVal(True), tag=z3.Select(self.tag, p))
         return SBytes(z3.Select(self.ct, p))
 
     def a_read_file_with_etag(self, I, obj, a, k):
@@ -142,9 +142,10 @@ class Store:
         self.step(I, "read_file_with_etag")
         self.maybe_fault(I, "read_file_with_etag", p)
         if not I.ctx.decide(z3.Select(self.ex, p), "read-exists"):
-            self.log("read_file_with_etag", path=p, ok=False)
+            self.log("read_file_with_etag", path=p, ok=False, ex=z3.BoolVal(False), tag=z3.Select(self.tag, p))
             raise PyRaise(SExc("FileNotFoundError", origin="read_file_with_etag: not found", fields={"fault": False}))
-        ev = self.log("read_file_with_etag", path=p, ok=True, content=z3.Select(self.ct, p), etag=z3.Select(self.tag, p))
+        ev = self.log("read_file_with_etag", path=p, ok=True, content=z3.Select(self.ct, p), etag=z3.Select(self.tag, p),
+                      ex=z3.BoolVal(True), tag=z3.Select(self.tag, p))
         etag = SInt(z3.Select(self.tag, p)) if self.cas else None
         return (SBytes(z3.Select(self.ct, p)), etag)
 
